@@ -244,7 +244,7 @@ def coq_select_cases(cases, results):
             if g["type"] == "POINT" or len(g["connect"]) > 400 or r["Nn"] > 400:
                 continue
             body.append("Eval vm_compute in (%d%%Z, let conn := [%s] in let sel := %s in (list_eqb (select conn sel true) %s && list_eqb (select conn sel false) %s)).\n"
-                        % (555000 + k, "; ".join(L(row) for row in g["connect"]), L(r["nodes"]), L(g["excl"]), L(g["touch"])))
+                        % (5000000 + k, "; ".join(L(row) for row in g["connect"]), L(r["nodes"]), L(g["excl"]), L(g["touch"])))
             ids.append((c["id"], g["type"]))
             k += 1
     return "".join(body), ids
@@ -282,7 +282,7 @@ def run(ctx):
     body, ids = coq_select_cases(cases, results)
     rc, o = ctx.coq_eval("select_cases.v", body, timeout=900)
     import re
-    got = {int(m.group(1)) - 555000: m.group(2) for m in re.finditer(r"=\s*\((555\d+)%Z,\s*(true|false)\)", o.replace("\n", " "))}
+    got = {int(m.group(1)) - 5000000: m.group(2) for m in re.finditer(r"=\s*\((5\d{6})%Z,\s*(true|false)\)", o.replace("\n", " "))}
     badsel = [ids[k] for k in range(len(ids)) if got.get(k) != "true"]
     ctx.obligation("corr:selection-model-vs-Get_Elements_Nodes", rc == 0 and not badsel, "%d (case, group) selections; mismatches %s" % (len(ids), badsel[:3]), n=max(len(ids), 1))
     ctx.cov["selection_cases"] = len(ids)
